@@ -41,6 +41,8 @@ META = {
 }
 
 HARNESS = "c01_prog"
+FAMILIES = ["general", "lattice", "import", "smooth-refine", "collapse", "touching"]
+FAMILY_WEIGHTS = [40, 14, 11, 12, 12, 11]
 UNARY_GEOM = ("translate", "scale", "rotate", "mirror", "transform", "warp", "warpbatch")
 
 # ------------------------------------------------------------------ program generator
@@ -118,6 +120,8 @@ class Gen:
         if k == 7:
             return self.add("revolve", r.choice([0, 3, 4, 8, 12]), f3(r.choice([360, 360, 180, 90, 270, 400])), *polys(r))
         if k == 8:
+            if r.random() < 0.3:
+                return self.add("soup", r.choice([10, 11, 12]), r.choice([8, 31, 32, 33, 34, 40, 64]), r.randrange(2, 5))
             return self.add("soup", r.choice([0, 0, 1, 2, 5, 6, 8, 9, 9]), r.choice([0, 1, 2, 3, 4, 5, 7]), r.choice([3, 4, 6, 9]))
         if k == 9:
             return self.add("levelset", r.randrange(6), f3(r.choice([0.5, 0.8, 1.0])), f3(r.choice([1.0, 1.3, 2.0])),
@@ -287,6 +291,38 @@ def gen_program(rng, family):
         g.add(rng.choice(["simplify", "settol"]), a, f3(rng.choice([0.1, 0.3, 1.0, 2.0])))
         if rng.random() < 0.4:
             g.add("bool", len(g.ins) - 1, g.add("cube", "1", "1", "1", 1), rng.randrange(3))
+    elif family == "touching":
+        # several solids in ONE MeshGL64 touching along a shared edge (wedges) or a shared vertex (bipyramids),
+        # fans of N triangles at the shared vertices, N on both sides of DedupeEdges' 32-neighbour switch from
+        # linear search to unordered_map; every triangle order makes CreateHalfedges pair the duplicates differently
+        kind = rng.choice([10, 10, 10, 12, 12, 11, 11])
+        if rng.random() < 0.08:
+            kind += 100                     # + 2^18 unused vertices: CreateHalfedges' large-vertex-count branch
+        N = rng.choice([8, 16, 31, 32, 33, 34, 40, 64, rng.randrange(3, 70)])
+        a = g.add("soup", kind, N, rng.randrange(4) if kind % 100 != 11 else rng.choice([2, 3, 4, 5]))
+        for _ in range(rng.randrange(0, 4)):
+            k = rng.randrange(9)
+            if k == 0:
+                b = g.add("rotate", a, "10", "20", "30"); g.add("scale", b, "1", "2", "3")
+            elif k == 1:
+                c = g.add("cube", "0.4", "0.4", "0.4", 1)
+                c = g.add("translate", c, f3(rng.choice([1.0, 0.5, 0.0])), "0", f3(rng.choice([0.5, 0.0, 1.0])))
+                g.add("bool", a, c, rng.randrange(3))
+            elif k == 2:
+                g.add("refine", a, rng.choice([2, 3]))
+            elif k == 3:
+                g.add("reimport", a, rng.randrange(4))
+            elif k == 4:
+                g.add("decompose", a, rng.randrange(3))
+            elif k == 5:
+                g.add("simplify", a, f3(rng.choice([0, 0.01, 0.2])))
+            elif k == 6:
+                g.add("splitplane", a, "0", "0", "1", f3(rng.choice([0.5, 0.25, 0.0])), rng.randrange(2))
+            elif k == 7:
+                b = g.add("soup", rng.choice([10, 11, 12]), rng.choice([8, 33, 40]), rng.randrange(2, 4))
+                g.add("bool", a, g.add("translate", b, f3(rng.choice([0, 0.5, 1])), "0", "0"), rng.randrange(3))
+            else:
+                g.step()
     elif family == "lattice":
         n = rng.choice([2, 3, 4, 5])
         vals = [g.box() for _ in range(n)]
@@ -311,6 +347,15 @@ def gen_program(rng, family):
 def gen_large(rng):
     """programs whose meshes cross the 1e4 / 1e5 sequential thresholds (par tier)"""
     g = Gen(rng, 6)
+    if rng.random() < 0.25:
+        # > 1e4 halfedges: the TBB versions of SplitPinchedVerts / DedupeEdges, fans far above the 32-neighbour switch
+        a = g.add("soup", rng.choice([10, 12, 11]), rng.choice([2000, 4000, 9000]), rng.randrange(2, 4))
+        if rng.random() < 0.5:
+            c = g.add("cube", "0.4", "0.4", "0.4", 1)
+            g.add("bool", a, g.add("translate", c, "1", "0", "0.5"), 1)
+        else:
+            g.add("reimport", a, 1)
+        return g.ins
     segs = rng.choice([100, 128, 160, 200, 260, 320, 460])
     a = g.add("sphere", "1", segs)
     k = rng.randrange(10)
@@ -721,7 +766,7 @@ def pipeline_verdicts(cx, drv, pipes, findings_by_variant, exe, progs_seen):
             n = 0
             while len(extra) < cx.pick(150, 1200) and n < 20000:
                 n += 1
-                ins = gen_program(rng, rng.choice(["general", "general", "lattice", "import", "smooth-refine", "collapse"]))
+                ins = gen_program(rng, rng.choice(["general"] + FAMILIES))
                 ks = [i for i, x in enumerate(ins) if x[0] in d["ops"]]
                 if ks:
                     extra["x%s%d" % (d["name"], len(extra))] = (cx.pick(2500, 20000), ins[:ks[-1] + 1])
@@ -825,6 +870,12 @@ def topo_correspondence(cx, drv):
     cases = {}
     for n in range(cx.pick(1500, 30000)):
         nV, T = gen_soup(rng)
+        if n % 40 == 7:
+            # vertPos_.size() >= 1<<18 selects the per-vertex bucket branch of CreateHalfedges instead of the
+            # global sort; the model has one branch, so this is also a mode-independence check of the two
+            nV = (1 << 18) + rng.choice([0, 1, 56])
+        elif n % 40 == 8:
+            nV = (1 << 18) - 1
         cases["s%d" % n] = (nV, T)
     lines = ["CH %s %d %d %s" % (k, nV, len(T), " ".join("%d %d %d" % t for t in T)) for k, (nV, T) in cases.items()]
     kl = lambda l: l.split()[1]
@@ -877,7 +928,7 @@ def topo_correspondence(cx, drv):
             accepted += 1
         if "-1" in hi_.split() or (mi == "0"):
             nontriv += 1
-    cx.cov["correspondence"] = {"soups": len(cases), "mismatches": mism, "with_removed_opposed_pairs": removed, "accepted_by_IsManifold": accepted,
+    cx.cov["correspondence"] = {"soups": len(cases), "mismatches": mism, "soups_in_large_vertex_count_branch(nV>=2^18)": sum(1 for nV, T in cases.values() if nV >= (1 << 18)), "with_removed_opposed_pairs": removed, "accepted_by_IsManifold": accepted,
                                 "nontrivial(removal or rejection)": nontriv, "traces_validated_against_impl": len(cases) - mism}
     cx.log("correspondence CreateHalfedges: %d soups, %d mismatches, %d with removed pairs, %d rejected" % (len(cases), mism, removed, len(cases) - accepted))
     return len(cases), nontriv
@@ -1116,6 +1167,135 @@ def ops_correspondence(cx, drv):
     return steps, sum(branch.values())
 
 
+def even_manifold_case(rng):
+    """Hand-built even-manifold halfedge arrays: several closed solids identified along shared edges / vertices,
+    duplicate directed edges paired by a RANDOM matching (any matching satisfies HalfedgeInv), fans of N triangles
+    at the shared vertices with N on both sides of the 32-neighbour switch in DedupeEdges."""
+    T = []
+    nV = [0]
+
+    def newv(k=1):
+        nV[0] += k
+        return list(range(nV[0] - k, nV[0]))
+    kind = rng.randrange(6)
+    N = rng.choice([3, 8, 16, 31, 32, 33, 34, 40, 64, rng.randrange(3, 70)])
+    if kind in (0, 1):                       # nW wedges around one shared edge A-B
+        A, B = newv(2)
+        for w in range(2 if kind == 0 else rng.choice([3, 4])):
+            r = newv(N)
+            for i in range(N - 1):
+                T += [(A, r[i + 1], r[i]), (B, r[i], r[i + 1])]
+            T += [(A, B, r[N - 1]), (B, A, r[0])]
+    elif kind == 2:                          # m bipyramids sharing one apex (pinched vertex, m fans)
+        A, = newv()
+        for j in range(rng.choice([2, 3, 4])):
+            C, = newv(); r = newv(N)
+            for i in range(N):
+                T += [(A, r[(i + 1) % N], r[i]), (C, r[i], r[(i + 1) % N])]
+    elif kind == 3:                          # wedges sharing an edge AND a bipyramid hanging on A
+        A, B = newv(2)
+        for w in range(2):
+            r = newv(N)
+            for i in range(N - 1):
+                T += [(A, r[i + 1], r[i]), (B, r[i], r[i + 1])]
+            T += [(A, B, r[N - 1]), (B, A, r[0])]
+        C, = newv(); M = rng.choice([3, 30, 40]); r = newv(M)
+        for i in range(M):
+            T += [(A, r[(i + 1) % M], r[i]), (C, r[i], r[(i + 1) % M])]
+    elif kind == 4:                          # two fans sharing the edge A-B where the repeated neighbour comes late in the orbit
+        A, B = newv(2)
+        for w in range(2):
+            r = newv(N)
+            T += [(A, B, r[N - 1]), (B, A, r[0])]
+            for i in range(N - 1):
+                T += [(A, r[i + 1], r[i]), (B, r[i], r[i + 1])]
+    else:                                    # small: tetrahedra sharing an edge / a vertex
+        a, b, c, d, e, f = newv(6)
+        tet = lambda p, q, r_, s_: [(p, r_, q), (p, s_, r_), (p, q, s_), (q, r_, s_)]
+        T += tet(a, c, d, b) + tet(a, e, f, b)
+        if rng.random() < 0.5:
+            g_, h_, i_ = newv(3)
+            T += tet(a, g_, h_, i_)
+    if rng.random() < 0.5:
+        rng.shuffle(T)
+    if rng.random() < 0.3:
+        T = [(b, c, a) if rng.random() < 0.5 else (a, b, c) for a, b, c in T]
+    fwd = {}
+    for t, tri in enumerate(T):
+        for i in range(3):
+            fwd.setdefault((tri[i], tri[(i + 1) % 3]), []).append(3 * t + i)
+    H = [[T[e // 3][e % 3], -1] for e in range(3 * len(T))]
+    for (a, b), es in fwd.items():
+        if a < b:
+            rs = list(fwd[(b, a)])
+            mode = rng.randrange(3)
+            if mode == 0:
+                rng.shuffle(rs)
+            elif mode == 1:
+                rs = rs[::-1]
+            for x, y in zip(es, rs):
+                H[x][1] = y; H[y][1] = x
+    return nV[0], H, kind, N
+
+
+def cleanup_oracle(cx, drv):
+    """CleanupTopology / SplitPinchedVerts / DedupeEdges of the real Impl on hand-built even-manifold states.  Not
+    ported: judged only by the extracted invariants and, after SortVerts+SortFaces, by the extracted check_mesh."""
+    exe = vp.build_harness("c01_ops", "seq", link_lib=True)
+    rng = random.Random(cx.seed * 7331 + 9)
+    cases, lines = {}, []
+    for n in range(cx.pick(400, 6000)):
+        nV, H, kind, N = even_manifold_case(rng)
+        seq = rng.choice([["cleanup"], ["cleanup"], ["splitpinched", "dedupeedges"], ["cleanup", "cleanup"], ["dedupeedges", "splitpinched", "dedupeedges"]])
+        # every pipeline that runs CleanupTopology calls RemoveUnreferencedVerts before SortGeometry: DedupeEdge moves
+        # whole fans to new vertices and can leave the original vertex unreferenced
+        ops = [[o] for o in seq] + [["removeunref"], ["sortverts"], ["sortfaces"]]
+        cases["u%d" % n] = (nV, H, ops, kind, N)
+        lines.append(ops_line("u%d" % n, nV, H, ops))
+    kl = lambda l: l.split()[1]
+    ko = lambda l: l.split()[1] if l[:2] == "E " else None
+    out_i, crashes = vp.run_cases(exe, lines, kl, ko, timeout=600)
+    for cl, rc, err in crashes:
+        cx.violation("cleanup-crash", "CleanupTopology crashed or hung (rc=%s) on a hand-built even-manifold halfedge state" % rc, {"case": cl[:4000]})
+    last = {}
+    for l in out_i.splitlines():
+        t = l.split(None, 3)
+        if len(t) >= 4 and t[0] == "A":
+            last[t[1]] = (int(t[2]), t[3])
+    orc, meshes = [], []
+    for k, (nV, H, ops, kind, N) in cases.items():
+        if k not in last or last[k][0] != len(ops) or last[k][1] == "SKIP":
+            if k in last:
+                cx.broke("oracle:C01/cleanup#%s" % k, "case not executed to the end (step %s: %s)" % (last[k][0], last[k][1][:40]))
+            continue
+        hpart, npart = last[k][1].split(" N")
+        hv, nvv = hpart.split()[1:], npart.split()
+        orc.append("ORC %s %d %d %d %s %s" % (k, len(ops), len(nvv), len(hv) // 2, " ".join(hv), " ".join(nvv)))
+        st = hv[0::2]
+        nt = len(st) // 3
+        meshes.append("MESH %s %d %d %d %d %d %d %s" % (k, len(nvv), len(nvv), 3 * nt // 2, nt, 0, nt, " ".join(st)))
+    rc, out_o, err = vp.sh2([drv], input="\n".join(orc) + "\n", timeout=600)
+    res = {l.split()[1]: l.split(None, 3)[3] for l in out_o.splitlines() if l.startswith("O ")}
+    ver = judge(drv, meshes, 4)
+    bad, dist = 0, {}
+    for k, (nV, H, ops, kind, N) in cases.items():
+        if k not in res:
+            continue
+        tag = "kind%d/%s" % (kind, "N<=32" if N <= 32 else "N>32")
+        dist[tag] = dist.get(tag, 0) + 1
+        if res[k] != "1 1 1" or not ver.get(k, (False, False))[0]:
+            bad += 1
+            if bad <= 3:
+                cx.violation("cleanup-leaves-non-2-manifold",
+                             "CleanupTopology (SplitPinchedVerts + DedupeEdges) on an even-manifold state (kind %d, fans of %d triangles at the shared vertices) followed by "
+                             "SortVerts+SortFaces: extracted halfedge_inv/nan_iff_unreferenced/in_range = %s, extracted check_mesh = %s (a directed edge still occurs twice or a vertex is pinched)" % (
+                                 kind, N, res[k], int(ver.get(k, (False, False))[0])),
+                             {"case": ops_line(k, nV, H, ops), "fan": N, "kind": kind})
+    cx.cov["cleanup_oracle"] = {"cases": len(cases), "judged": len(res), "rejected": bad, "distribution": dist}
+    cx.log("cleanup oracle: %d even-manifold states, %d judged by extracted invariants + check_mesh, %d rejected; %s" % (len(cases), len(res), bad, dist))
+    return len(res)
+
+
 def prove_retry(cx):
     """cx.prove(), retried when the shared coq/Makefile lost a race with another check that was regenerating
     its coq/Gen/*.v at the same moment ('No rule to make target')."""
@@ -1153,7 +1333,7 @@ def run(cx):
     nprog = int(os.environ.get("VERIF_C01_NPROG", cx.pick(600, 5000)))   # override only for self-validation runs on a loaded machine
     maxtri = cx.pick(2500, 20000)
     for n in range(nprog):
-        fam = rng.choices(["general", "lattice", "import", "smooth-refine", "collapse"], [44, 16, 12, 14, 14])[0]
+        fam = rng.choices(FAMILIES, FAMILY_WEIGHTS)[0]
         fam_count[fam] = fam_count.get(fam, 0) + 1
         progs["q%d" % n] = (maxtri, gen_program(rng, fam))
     # corpus of past shrunk failures runs first (same ids space)
@@ -1177,8 +1357,9 @@ def run(cx):
         pp = {}
         for n in range(24):
             pp["L%d" % n] = (600000, gen_large(rngp))
+        pp["Lhuge"] = (2000000, [["sphere", "1", "1028"], ["trim", "0", "0", "0", "1", "0.5"]])   # 262k+ vertices: CreateHalfedges bucket branch
         for n in range(600):
-            fam = rngp.choices(["general", "lattice", "import", "smooth-refine", "collapse"], [44, 16, 12, 14, 14])[0]
+            fam = rngp.choices(FAMILIES, FAMILY_WEIGHTS)[0]
             pp["p%d" % n] = (20000, gen_program(rngp, fam))
         t0 = time.time()
         fpar, spar = evaluate(cx, exe_par, drv, pp, 4, alarm=600)
@@ -1236,3 +1417,6 @@ def run(cx):
     nsteps, nchg = ops_correspondence(cx, drv)
     cx.cov["evaluations"] += nsteps
     cx.cov["distinct_nontrivial"] += nchg
+    ncl = cleanup_oracle(cx, drv)
+    cx.cov["evaluations"] += ncl
+    cx.cov["distinct_nontrivial"] += ncl
